@@ -1,7 +1,6 @@
 package main
 
 import (
-	"go/ast"
 	"go/token"
 	"go/types"
 	"sort"
@@ -453,6 +452,8 @@ func runC14(c *Ctx, tier string) {
 	runSlicerBounds(c, "C14-S2")
 	runInputSortedWriters(c, "C14-S3")
 	runFirstKeyByPosition(c, "C14-M1")
+	runDeleteSurvivorExact(c, "C14-P2")
+	runLoadWriterSingleFlight(c, "C14-W2")
 }
 
 // stableSorts: the named functions sort with a stable algorithm.
@@ -605,6 +606,8 @@ func runC15(c *Ctx, tier string) {
 		c.Undecided("C15-E1", "conflict-detecting calls", "fewer than 3 call sites of Diff/PatchOfPath/Revert/PatchOfCommit in commit-object / patch constructors of package lake")
 	}
 	runBranchCommitProtocol(c, "C15-E1", false)
+	runPatchDeletesVisibleToDiff(c, "C15-R1")
+	runPatchDiffDisjointFromBase(c, "C15-P1")
 }
 
 // checkErrReturned: every call of callee in fn has its error returned and the success
@@ -836,68 +839,29 @@ func init() {
 // runDeleteComplement: C14-W1.
 func runDeleteComplement(c *Ctx) {
 	p := c.P
-	c.Rule("C14-W1", "delete-where keeps exactly the complement: the deleter's evaluator is `!P or missing(P)` over the same pushed-down predicate P, and the deleter has no buffer filter (a frame filter for P would drop the frames whose values must all be kept)")
+	c.Rule("C14-W1", "delete-where rewrites with the complement of the same predicate: the deleter's evaluator is compiled from the filter's own pushed-down predicate P (its Boolean function is C14-P2), and the deleter has no buffer filter (a frame filter for P would drop the frames whose values must all be kept)")
 	pk := p.Pkgs["compiler/kernel"]
 	ae := p.Func("(*compiler/kernel.DeleteFilter).AsEvaluator")
 	ab := p.Func("(*compiler/kernel.DeleteFilter).AsBufferFilter")
 	if pk == nil || ae == nil || p.Decl(ae) == nil {
 		c.Undecided("C14-W1", "(*compiler/kernel.DeleteFilter).AsEvaluator", "anchor does not resolve")
 	} else {
-		info := pk.TypesInfo
-		field := func(cl *ast.CompositeLit, name string) ast.Expr {
-			for _, el := range cl.Elts {
-				if kv, ok := el.(*ast.KeyValueExpr); ok {
-					if k, ok := kv.Key.(*ast.Ident); ok && k.Name == name {
-						return kv.Value
-					}
-				}
-			}
-			return nil
-		}
-		lit := func(e ast.Expr) *ast.CompositeLit {
-			if u, ok := e.(*ast.UnaryExpr); ok {
-				e = u.X
-			}
-			cl, _ := e.(*ast.CompositeLit)
-			return cl
-		}
+		// the survivor predicate is compiled from the filter's own pushed-down predicate
+		// (its Boolean function is C14-P2's obligation)
 		ok := false
-		ast.Inspect(p.Decl(ae).Body, func(n ast.Node) bool {
-			cl, isCL := n.(*ast.CompositeLit)
-			if !isCL || namedOf(info.TypeOf(cl)) != "compiler/ast/dag.BinaryExpr" {
-				return true
+		for _, ci := range allCalls(ae) {
+			if !strings.HasSuffix(calleeName(ci.Common()), ".compileExpr") {
+				continue
 			}
-			op, _ := constString(info, field(cl, "Op"))
-			l, r := lit(field(cl, "LHS")), lit(field(cl, "RHS"))
-			if op != "or" || l == nil || r == nil {
-				return true
-			}
-			// one side is !P, the other missing(P)
-			sides := []*ast.CompositeLit{l, r}
-			var neg, miss string
-			for _, s := range sides {
-				switch namedOf(info.TypeOf(s)) {
-				case "compiler/ast/dag.UnaryExpr":
-					if o, _ := constString(info, field(s, "Op")); o == "!" {
-						neg = types.ExprString(field(s, "Operand"))
-					}
-				case "compiler/ast/dag.Call":
-					if nm, _ := constString(info, field(s, "Name")); nm == "missing" {
-						if args, isA := field(s, "Args").(*ast.CompositeLit); isA && len(args.Elts) == 1 {
-							miss = types.ExprString(args.Elts[0])
-						}
-					}
-				}
-			}
-			if neg != "" && neg == miss && strings.HasSuffix(neg, ".pushdown") {
+			args := ci.Common().Args
+			if strings.HasSuffix(fieldPath(stripConv(args[len(args)-1])), ".pushdown") {
 				ok = true
 			}
-			return true
-		})
+		}
 		if ok {
-			c.OK("C14-W1", "(*compiler/kernel.DeleteFilter).AsEvaluator", ae.Pos(), "`!P or missing(P)` over the same pushdown")
+			c.OK("C14-W1", "(*compiler/kernel.DeleteFilter).AsEvaluator", ae.Pos(), "the survivor predicate is compiled from the filter's pushdown")
 		} else {
-			c.Fail("C14-W1", "(*compiler/kernel.DeleteFilter).AsEvaluator", ae.Pos(), "the evaluator used to rewrite an object on delete-where is not `!P or missing(P)` over the pushed-down predicate: values for which P is an error/missing would be dropped, or values matching P kept")
+			c.Fail("C14-W1", "(*compiler/kernel.DeleteFilter).AsEvaluator", ae.Pos(), "the evaluator used to rewrite an object on delete-where is not compiled from the pushed-down predicate of the same filter: the deleter and the lister's pruner would then disagree about which values the delete is about")
 		}
 	}
 	if ab == nil {
